@@ -1,12 +1,1270 @@
-//! Extension module (Tier A): owner fills in. Output: coq/gen/SchemaFns.v
+//! Extension module (Tier A, C05 / C13). Output: coq/gen/SchemaFns.v
 //! Contract: return (text of the .v file, report lines). Each report line is one JSON object
 //! {"item":"SchemaFns.<name>","file":"<rust file>","ok":true|false[,"error":"..."]}.
 //! Fail closed: when a site is not recognised, OMIT the Gallina definition (so dependent proofs stop
 //! compiling) and push an ok:false report line.
+//!
+//! Items (all read from egglog-bridge/src/lib.rs):
+//!  * `SchemaFns.SchemaMath`      struct SchemaMath {subsume, func_cols} and the methods `num_keys`,
+//!    `table_columns`, `ret_val_col`, `ts_col`, `subsume_col`, `write_table_row`;
+//!  * `SchemaFns.combine_subsumed` the constants SUBSUMED / NOT_SUBSUMED and `combine_subsumed` over N;
+//!  * `SchemaFns.to_callback`     the closure returned by `MergeFn::to_callback`, as a function of the
+//!    captured `schema_math`, the resolved merge function (parameter `resolved_run`), the execution
+//!    state (effect log), the rows `cur`, `new` and the scratch row `out`; it returns
+//!    `(changed, state, out)`;
+//!  * `SchemaFns.ResolvedMergeFn` the enum as an Inductive (ids / values -> N, Vec<Self> -> list);
+//!  * `SchemaFns.run`             `ResolvedMergeFn::run`, arm by arm, as a structural Fixpoint.
+//!
+//! Translation scheme (statement by statement, everything in `Res`): `let x = e` / mutation is
+//! shadowing; the mutable variables in scope (`&mut` parameters and `let mut` locals: the *carried*
+//! variables) are returned by every nested block / closure body / branch together with its value and
+//! re-bound by the enclosing context, so a block that mutates an outer variable is translated
+//! faithfully. `v[i]` -> `rget` (Panic out of bounds), `v[i] = e` -> `rset`, `assert!(c)` -> Panic
+//! unless c, `assert_eq!(x, None)` -> Panic unless None, `c.then(|| b)` -> option, calls that take the
+//! execution state return `(value, state)`: `state.call_external_func` / `state.stage_insert` /
+//! `func.lookup_or_insert` are the prelude functions `State_*` / `TableAction_*` (they append to the
+//! effect log and ask the environment oracle), `args.iter().map(|arg| arg.run(A..)).collect()` is a
+//! local structural fix that threads the state left to right and calls `ResolvedMergeFn_run arg A..`
+//! with the arguments in SOURCE ORDER. usize `+` / `-` are N addition / truncated subtraction (the
+//! theorems carry `1 <= func_cols`). Anything else is an error for the item.
+use std::cell::Cell;
+use std::collections::HashSet;
+use std::rc::Rc;
+use syn::{spanned::Spanned, BinOp, Expr, FnArg, ImplItem, Item as SynItem, Lit, Pat, Stmt, Type, UnOp};
 
-pub fn generate(_repo: &std::path::Path) -> (String, Vec<String>) {
-    (
-        "(* GENERATED by /verif/translator (x_schema.rs): nothing extracted yet *)\n".to_string(),
-        Vec::new(),
-    )
+type R<T> = Result<T, String>;
+const FILE: &str = "egglog-bridge/src/lib.rs";
+
+fn err<T, S: Spanned>(s: &S, msg: &str) -> R<T> {
+    Err(format!("line {}: {}", s.span().start().line, msg))
+}
+
+fn coq_name(s: &str) -> String {
+    match s {
+        "self" => "self_".into(),
+        "fuel" | "bind" | "fun" | "end" | "in" | "let" | "match" | "with" | "if" | "then" | "else" | "as" | "at"
+        | "return" | "fix" | "forall" | "exists" | "Type" | "Prop" | "Set" | "env" | "rget" | "rset" | "tt" => {
+            format!("{s}_v")
+        }
+        _ => s.to_string(),
+    }
+}
+
+fn path_last(p: &syn::Path) -> String {
+    p.segments.last().map(|s| s.ident.to_string()).unwrap_or_default()
+}
+
+fn path_is(e: &Expr, name: &str) -> bool {
+    matches!(e, Expr::Path(p) if p.path.segments.len() == 1 && p.path.segments[0].ident == name)
+}
+
+fn ident_of(e: &Expr) -> Option<String> {
+    match e {
+        Expr::Path(p) if p.path.segments.len() == 1 => Some(p.path.segments[0].ident.to_string()),
+        Expr::Reference(r) => ident_of(&r.expr),
+        Expr::Paren(p) => ident_of(&p.expr),
+        _ => None,
+    }
+}
+
+#[derive(Clone)]
+struct Cx {
+    /// mutable variables in scope, in declaration order
+    carried: Vec<String>,
+    /// type of `self` ("SchemaMath", "ResolvedMergeFn" or "")
+    self_ty: &'static str,
+    /// variables of type SchemaMath other than self
+    sm_vars: Vec<String>,
+    /// the local that holds the resolved merge function (closure of to_callback)
+    resolved: Option<String>,
+    /// the ExecutionState variable
+    state: Option<String>,
+    /// SchemaMath methods whose translation is in Res
+    res_methods: Rc<HashSet<String>>,
+    /// all SchemaMath methods translated so far
+    sm_methods: Rc<HashSet<String>>,
+    /// parameter order of write_table_row after (self, row): the fields of its RowVals pattern
+    wtr_fields: Rc<Vec<String>>,
+    tmp: Rc<Cell<usize>>,
+    /// immutable locals that shadow a carried variable: (source name, generated name)
+    renames: Vec<(String, String)>,
+}
+
+impl Cx {
+    fn rn(&self, id: &str) -> String {
+        match self.renames.iter().rev().find(|r| r.0 == id) {
+            Some(r) => r.1.clone(),
+            None => coq_name(id),
+        }
+    }
+    /// the expression is a mutable variable in scope (and not hidden by a shadowing let)
+    fn carried_var(&self, e: &Expr) -> Option<String> {
+        let id = ident_of(e)?;
+        if self.carried.contains(&id) && !self.renames.iter().any(|r| r.0 == id) {
+            Some(id)
+        } else {
+            None
+        }
+    }
+    fn fresh(&self) -> String {
+        let n = self.tmp.get();
+        self.tmp.set(n + 1);
+        format!("t{n}_")
+    }
+    fn is_sm(&self, e: &Expr) -> Option<String> {
+        let id = ident_of(e)?;
+        if (id == "self" && self.self_ty == "SchemaMath") || self.sm_vars.contains(&id) {
+            Some(coq_name(&id))
+        } else {
+            None
+        }
+    }
+}
+
+fn tup(first: &str, carried: &[String]) -> String {
+    let mut s = first.to_string();
+    for c in carried {
+        s.push_str(", ");
+        s.push_str(&coq_name(c));
+    }
+    s
+}
+fn ok(val: &str, carried: &[String]) -> String {
+    if carried.is_empty() {
+        format!("Ok {val}")
+    } else {
+        format!("Ok ({})", tup(val, carried))
+    }
+}
+fn pat(name: &str, carried: &[String]) -> String {
+    if carried.is_empty() {
+        name.to_string()
+    } else {
+        format!("'({})", tup(name, carried))
+    }
+}
+
+/// pure expressions: Ok(None) = not a pure expression (the caller tries `bind_expr`)
+fn atom(e: &Expr, cx: &Cx) -> R<Option<String>> {
+    Ok(Some(match e {
+        Expr::Paren(p) => return atom(&p.expr, cx),
+        Expr::Group(g) => return atom(&g.expr, cx),
+        Expr::Reference(r) => return atom(&r.expr, cx),
+        Expr::Unary(u) => match u.op {
+            UnOp::Deref(_) => return atom(&u.expr, cx),
+            UnOp::Not(_) => match atom(&u.expr, cx)? {
+                Some(a) => format!("(negb {a})"),
+                None => return Ok(None),
+            },
+            _ => return err(e, "unsupported unary operator"),
+        },
+        Expr::Path(p) => {
+            if p.path.segments.len() != 1 {
+                return err(e, "unsupported path expression");
+            }
+            cx.rn(&p.path.segments[0].ident.to_string())
+        }
+        Expr::Lit(l) => match &l.lit {
+            Lit::Int(i) => i.base10_digits().to_string(),
+            Lit::Bool(b) => b.value.to_string(),
+            _ => return err(e, "unsupported literal"),
+        },
+        Expr::Array(a) => {
+            let mut xs = Vec::new();
+            for x in &a.elems {
+                match atom(x, cx)? {
+                    Some(t) => xs.push(t),
+                    None => return err(x, "array element is not a pure expression"),
+                }
+            }
+            format!("[{}]", xs.join("; "))
+        }
+        Expr::Field(f) => {
+            let fname = match &f.member {
+                syn::Member::Named(i) => i.to_string(),
+                _ => return err(e, "tuple field"),
+            };
+            match cx.is_sm(&f.base) {
+                Some(v) if fname == "subsume" || fname == "func_cols" => format!("(sm_{fname} {v})"),
+                _ => return err(e, "unsupported field access"),
+            }
+        }
+        Expr::Binary(b) => {
+            let op = match b.op {
+                BinOp::Add(_) => "+",
+                BinOp::Sub(_) => "-",
+                BinOp::Eq(_) => "=?",
+                BinOp::Ne(_) => "<>?",
+                _ => return Ok(None),
+            };
+            let (l, r) = match (atom(&b.left, cx)?, atom(&b.right, cx)?) {
+                (Some(l), Some(r)) => (l, r),
+                _ => return Ok(None),
+            };
+            match op {
+                "=?" => format!("(N.eqb {l} {r})"),
+                "<>?" => format!("(negb (N.eqb {l} {r}))"),
+                _ => format!("({l} {op} {r})"),
+            }
+        }
+        Expr::If(i) => {
+            // pure conditional: both branches single pure expressions
+            let c = match atom(&i.cond, cx) {
+                Ok(Some(c)) => c,
+                _ => return Ok(None),
+            };
+            let single = |b: &syn::Block| -> Option<Expr> {
+                if b.stmts.len() == 1 {
+                    if let Stmt::Expr(x, None) = &b.stmts[0] {
+                        return Some(x.clone());
+                    }
+                }
+                None
+            };
+            let (t, f) = match (&i.else_branch, single(&i.then_branch)) {
+                (Some((_, eb)), Some(t)) => match &**eb {
+                    Expr::Block(bb) => match single(&bb.block) {
+                        Some(f) => (t, f),
+                        None => return Ok(None),
+                    },
+                    _ => return Ok(None),
+                },
+                _ => return Ok(None),
+            };
+            match (atom(&t, cx)?, atom(&f, cx)?) {
+                (Some(t), Some(f)) => format!("(if {c} then {t} else {f})"),
+                _ => return Ok(None),
+            }
+        }
+        Expr::Call(c) => {
+            let fname = match &*c.func {
+                Expr::Path(p) => p.path.segments.iter().map(|s| s.ident.to_string()).collect::<Vec<_>>().join("::"),
+                _ => return err(e, "unsupported callee"),
+            };
+            let mut args = Vec::new();
+            for a in &c.args {
+                match atom(a, cx)? {
+                    Some(t) => args.push(t),
+                    None => return Ok(None),
+                }
+            }
+            match (fname.as_str(), args.len()) {
+                ("Some", 1) => format!("(Some {})", args[0]),
+                ("std::cmp::min", 2) | ("cmp::min", 2) => format!("(N.min {} {})", args[0], args[1]),
+                ("std::cmp::max", 2) | ("cmp::max", 2) => format!("(N.max {} {})", args[0], args[1]),
+                ("combine_subsumed", 2) => format!("(combine_subsumedN {} {})", args[0], args[1]),
+                ("Value::new_const", 1) => args[0].clone(),
+                _ => return err(e, &format!("unsupported call {fname}/{}", args.len())),
+            }
+        }
+        Expr::MethodCall(m) => {
+            let name = m.method.to_string();
+            if name == "clone" && m.args.is_empty() {
+                return atom(&m.receiver, cx);
+            }
+            if let Some(v) = cx.is_sm(&m.receiver) {
+                if m.args.is_empty() && cx.sm_methods.contains(&name) && !cx.res_methods.contains(&name) {
+                    return Ok(Some(format!("(SchemaMath_{name} {v})")));
+                }
+            }
+            return Ok(None);
+        }
+        _ => return Ok(None),
+    }))
+}
+
+fn atoms(args: impl Iterator<Item = impl std::borrow::Borrow<Expr>>, cx: &Cx) -> R<Vec<String>> {
+    let mut v = Vec::new();
+    for a in args {
+        let a = a.borrow();
+        match atom(a, cx)? {
+            Some(t) => v.push(t),
+            None => return err(a, "argument is not a pure expression"),
+        }
+    }
+    Ok(v)
+}
+
+/// evaluate `e` to an atom (binding a temporary when it is not pure), then continue with `k`
+fn with_atom(e: &Expr, cx: &Cx, k: impl FnOnce(String) -> R<String>) -> R<String> {
+    if let Some(a) = atom(e, cx)? {
+        return k(a);
+    }
+    let t = cx.fresh();
+    let rest = k(t.clone())?;
+    bind_expr(e, &t, cx, rest)
+}
+
+/// the body of a closure / a branch, as a term of type Res (value * carried)
+fn value_block(e: &Expr, cx: &Cx) -> R<String> {
+    match e {
+        Expr::Block(b) => tr_stmts(&b.block.stmts, cx.clone(), &cx.carried),
+        Expr::Closure(c) => {
+            if !c.inputs.is_empty() {
+                return err(e, "closure with parameters");
+            }
+            value_block(&c.body, cx)
+        }
+        _ => {
+            let t = cx.fresh();
+            bind_expr(e, &t, cx, ok(&t, &cx.carried))
+        }
+    }
+}
+
+fn block_value(b: &syn::Block, cx: &Cx) -> R<String> {
+    tr_stmts(&b.stmts, cx.clone(), &cx.carried)
+}
+
+/// an effectful call: Some(term of type Res (value * state))
+fn state_call(e: &Expr, cx: &Cx) -> R<Option<String>> {
+    let m = match e {
+        Expr::MethodCall(m) => m,
+        Expr::Paren(p) => return state_call(&p.expr, cx),
+        _ => return Ok(None),
+    };
+    let name = m.method.to_string();
+    let st = match &cx.state {
+        Some(s) => s.clone(),
+        None => return Ok(None),
+    };
+    let recv = ident_of(&m.receiver);
+    if name == "run" && recv.is_some() && recv == cx.resolved {
+        let a = atoms(m.args.iter(), cx)?;
+        return Ok(Some(format!("(resolved_run {})", a.join(" "))));
+    }
+    if (name == "call_external_func" || name == "stage_insert") && recv.as_deref() == Some(st.as_str()) {
+        let a = atoms(m.args.iter(), cx)?;
+        let envp = if name == "call_external_func" { "env " } else { "" };
+        return Ok(Some(format!("(State_{name} {envp}{} {})", coq_name(&st), a.join(" "))));
+    }
+    if name == "lookup_or_insert" {
+        let r = match atom(&m.receiver, cx)? {
+            Some(r) => r,
+            None => return err(e, "receiver of lookup_or_insert"),
+        };
+        let a = atoms(m.args.iter(), cx)?;
+        return Ok(Some(format!("(TableAction_lookup_or_insert env {r} {})", a.join(" "))));
+    }
+    if name == "collect" && m.args.is_empty() {
+        // args.iter().map(|arg| arg.run(A..)).collect::<Vec<_>>()
+        if let Expr::MethodCall(mp) = &*m.receiver {
+            if mp.method == "map" && mp.args.len() == 1 {
+                if let (Expr::MethodCall(it), Expr::Closure(cl)) = (&*mp.receiver, &mp.args[0]) {
+                    if it.method == "iter" && it.args.is_empty() && cl.inputs.len() == 1 {
+                        let list = match atom(&it.receiver, cx)? {
+                            Some(l) => l,
+                            None => return err(e, "iterated expression"),
+                        };
+                        let var = match &cl.inputs[0] {
+                            Pat::Ident(pi) => pi.ident.to_string(),
+                            _ => return err(e, "closure parameter"),
+                        };
+                        if let Expr::MethodCall(rc) = &*cl.body {
+                            if rc.method == "run" && path_is(&rc.receiver, &var) && cx.self_ty == "ResolvedMergeFn" {
+                                let a = atoms(rc.args.iter(), cx)?;
+                                if a.first().map(|s| s.as_str()) != Some(coq_name(&st).as_str()) {
+                                    return err(e, "first argument of the recursive run must be the state");
+                                }
+                                let rest_args = a[1..].join(" ");
+                                let s = coq_name(&st);
+                                return Ok(Some(format!(
+                                    "((fix run_args_ (l_ : list ResolvedMergeFn) ({s} : list effect) {{struct l_}} : Res (list N * list effect) :=\n        match l_ with\n        | [] => Ok ([], {s})\n        | {v} :: tl_ =>\n            bind (ResolvedMergeFn_run env {v} {s} {rest_args}) (fun '(v_, {s}) =>\n            bind (run_args_ tl_ {s}) (fun '(vs_, {s}) => Ok (v_ :: vs_, {s})))\n        end) {list} {s})",
+                                    v = coq_name(&var)
+                                )));
+                            }
+                        }
+                    }
+                }
+            }
+        }
+        return err(e, "unsupported collect(..) shape");
+    }
+    Ok(None)
+}
+
+fn opt_match(scrut: &str, some_var: &str, some_body: &str, none_body: &str) -> String {
+    format!("match {scrut} with\n    | Some {some_var} => {some_body}\n    | None => {none_body}\n    end")
+}
+
+/// code that evaluates `e`, binds its value to `name` (re-binding the carried variables it may have
+/// changed) and continues with `rest`
+fn bind_expr(e: &Expr, name: &str, cx: &Cx, rest: String) -> R<String> {
+    if let Some(a) = atom(e, cx)? {
+        return Ok(format!("let {name} := {a} in\n  {rest}"));
+    }
+    if let Some(call) = state_call(e, cx)? {
+        let st = vec![cx.state.clone().unwrap()];
+        return Ok(format!("bind {call} (fun {} =>\n  {rest})", pat(name, &st)));
+    }
+    let carried = &cx.carried;
+    match e {
+        Expr::Paren(p) => bind_expr(&p.expr, name, cx, rest),
+        Expr::Index(ix) => {
+            let row = match atom(&ix.expr, cx)? {
+                Some(r) => r,
+                None => return err(e, "indexed expression"),
+            };
+            with_atom(&ix.index, cx, |i| Ok(format!("bind (rget {row} {i}) (fun {name} =>\n  {rest})")))
+        }
+        Expr::Block(b) => {
+            let body = block_value(&b.block, cx)?;
+            Ok(format!("bind ({body}) (fun {} =>\n  {rest})", pat(name, carried)))
+        }
+        Expr::If(i) => {
+            let then_b = block_value(&i.then_branch, cx)?;
+            let else_b = match &i.else_branch {
+                None => ok("tt", carried),
+                Some((_, eb)) => match &**eb {
+                    Expr::Block(bb) => block_value(&bb.block, cx)?,
+                    _ => return err(e, "else-if"),
+                },
+            };
+            let sel = match &*i.cond {
+                Expr::Let(l) => {
+                    let (ctor, var) = match &*l.pat {
+                        Pat::TupleStruct(ts) if ts.elems.len() == 1 => match &ts.elems[0] {
+                            Pat::Ident(pi) => (path_last(&ts.path), pi.ident.to_string()),
+                            _ => return err(e, "if-let pattern"),
+                        },
+                        _ => return err(e, "if-let pattern"),
+                    };
+                    if ctor != "Some" {
+                        return err(e, "if-let on something else than Some");
+                    }
+                    let scrut = match atom(&l.expr, cx)? {
+                        Some(s) => s,
+                        None => return err(e, "if-let scrutinee"),
+                    };
+                    opt_match(&scrut, &coq_name(&var), &then_b, &else_b)
+                }
+                c => match atom(c, cx)? {
+                    Some(c) => format!("if {c} then ({then_b}) else ({else_b})"),
+                    None => return err(e, "condition is not a pure expression"),
+                },
+            };
+            Ok(format!("bind ({sel}) (fun {} =>\n  {rest})", pat(name, carried)))
+        }
+        Expr::Match(m) => {
+            let call = match state_call(&m.expr, cx)? {
+                Some(c) => c,
+                None => return err(e, "match scrutinee"),
+            };
+            let (mut some_arm, mut none_arm) = (None, None);
+            for arm in &m.arms {
+                if arm.guard.is_some() {
+                    return err(arm, "match guard");
+                }
+                match &arm.pat {
+                    Pat::TupleStruct(ts) if path_last(&ts.path) == "Some" && ts.elems.len() == 1 => match &ts.elems[0] {
+                        Pat::Ident(pi) => some_arm = Some((pi.ident.to_string(), value_block(&arm.body, cx)?)),
+                        _ => return err(arm, "pattern"),
+                    },
+                    Pat::Ident(pi) if pi.ident == "None" => none_arm = Some(value_block(&arm.body, cx)?),
+                    Pat::Path(p) if path_last(&p.path) == "None" => none_arm = Some(value_block(&arm.body, cx)?),
+                    _ => return err(arm, "pattern"),
+                }
+            }
+            let ((sv, sb), nb) = match (some_arm, none_arm) {
+                (Some(s), Some(n)) if m.arms.len() == 2 => (s, n),
+                _ => return err(e, "match must have exactly the arms Some(x) and None"),
+            };
+            let st = vec![cx.state.clone().unwrap()];
+            let t = cx.fresh();
+            Ok(format!(
+                "bind {call} (fun {} =>\n  bind ({}) (fun {} =>\n  {rest}))",
+                pat(&t, &st),
+                opt_match(&t, &coq_name(&sv), &sb, &nb),
+                pat(name, carried)
+            ))
+        }
+        Expr::MethodCall(m) => {
+            let mname = m.method.to_string();
+            match mname.as_str() {
+                "then" if m.args.len() == 1 => {
+                    let c = match atom(&m.receiver, cx)? {
+                        Some(c) => c,
+                        None => return err(e, "receiver of then"),
+                    };
+                    let body = value_block(&m.args[0], cx)?;
+                    let v = cx.fresh();
+                    Ok(format!(
+                        "bind (if {c} then bind ({body}) (fun {} => {}) else {}) (fun {} =>\n  {rest})",
+                        pat(&v, carried),
+                        ok(&format!("(Some {v})"), carried),
+                        ok("None", carried),
+                        pat(name, carried)
+                    ))
+                }
+                "unwrap_or_else" if m.args.len() == 1 => {
+                    let call = match state_call(&m.receiver, cx)? {
+                        Some(c) => c,
+                        None => return err(e, "receiver of unwrap_or_else"),
+                    };
+                    let body = value_block(&m.args[0], cx)?;
+                    let st = vec![cx.state.clone().unwrap()];
+                    let (t, v) = (cx.fresh(), cx.fresh());
+                    Ok(format!(
+                        "bind {call} (fun {} =>\n  bind ({}) (fun {} =>\n  {rest}))",
+                        pat(&t, &st),
+                        opt_match(&t, &v, &ok(&v, carried), &body),
+                        pat(name, carried)
+                    ))
+                }
+                "extend_from_slice" if m.args.len() == 1 => {
+                    let v = match cx.carried_var(&m.receiver) {
+                        Some(v) => coq_name(&v),
+                        _ => return err(e, "extend_from_slice on something that is not a mutable row"),
+                    };
+                    let a = atoms(m.args.iter(), cx)?;
+                    Ok(format!("let {v} := ({v} ++ {}) in\n  let {name} := tt in\n  {rest}", a[0]))
+                }
+                "resize_with" if m.args.len() == 2 => {
+                    let v = match cx.carried_var(&m.receiver) {
+                        Some(v) => coq_name(&v),
+                        _ => return err(e, "resize_with on something that is not a mutable row"),
+                    };
+                    let n = atoms(std::iter::once(&m.args[0]), cx)?;
+                    let fill = match &m.args[1] {
+                        Expr::Closure(c) if c.inputs.is_empty() => match atom(&c.body, cx)? {
+                            Some(f) => f,
+                            None => return err(e, "fill closure"),
+                        },
+                        _ => return err(e, "fill closure"),
+                    };
+                    Ok(format!("let {v} := resize_with {v} {} {fill} in\n  let {name} := tt in\n  {rest}", n[0]))
+                }
+                "write_table_row" if m.args.len() == 2 => {
+                    let sm = match cx.is_sm(&m.receiver) {
+                        Some(s) => s,
+                        None => return err(e, "receiver of write_table_row"),
+                    };
+                    let row = match cx.carried_var(&m.args[0]) {
+                        Some(v) => coq_name(&v),
+                        _ => return err(e, "row argument of write_table_row must be a mutable row in scope"),
+                    };
+                    let lit = match &m.args[1] {
+                        Expr::Struct(s) if path_last(&s.path) == "RowVals" && s.rest.is_none() => s,
+                        _ => return err(e, "second argument of write_table_row must be a RowVals literal"),
+                    };
+                    if cx.wtr_fields.is_empty() || lit.fields.len() != cx.wtr_fields.len() {
+                        return err(e, "RowVals fields do not match write_table_row");
+                    }
+                    let mut args = Vec::new();
+                    for f in cx.wtr_fields.iter() {
+                        let fv = lit.fields.iter().find(|fv| matches!(&fv.member, syn::Member::Named(i) if i == f));
+                        match fv {
+                            Some(fv) => match atom(&fv.expr, cx)? {
+                                Some(a) => args.push(a),
+                                None => return err(e, "RowVals field is not a pure expression"),
+                            },
+                            None => return err(e, &format!("RowVals field {f} missing")),
+                        }
+                    }
+                    Ok(format!(
+                        "bind (SchemaMath_write_table_row {sm} {row} {}) (fun {row} =>\n  let {name} := tt in\n  {rest})",
+                        args.join(" ")
+                    ))
+                }
+                _ => {
+                    if let Some(v) = cx.is_sm(&m.receiver) {
+                        if m.args.is_empty() && cx.res_methods.contains(&mname) {
+                            return Ok(format!("bind (SchemaMath_{mname} {v}) (fun {name} =>\n  {rest})"));
+                        }
+                    }
+                    err(e, &format!("unsupported method call .{mname}(..)"))
+                }
+            }
+        }
+        _ => err(e, "unsupported expression"),
+    }
+}
+
+fn macro_args(mac: &syn::Macro) -> R<Vec<Expr>> {
+    mac.parse_body_with(syn::punctuated::Punctuated::<Expr, syn::Token![,]>::parse_terminated)
+        .map(|p| p.into_iter().collect())
+        .map_err(|e| format!("macro arguments: {e}"))
+}
+
+fn tr_macro(mac: &syn::Macro, cx: &Cx, rest: String) -> R<String> {
+    let name = path_last(&mac.path);
+    let args = macro_args(mac)?;
+    match name.as_str() {
+        "assert" if !args.is_empty() => match atom(&args[0], cx)? {
+            Some(c) => Ok(format!("if {c} then\n  {rest}\n  else Panic")),
+            None => err(mac, "assert! condition"),
+        },
+        "assert_eq" if args.len() == 2 && path_is(&args[1], "None") => match atom(&args[0], cx)? {
+            Some(x) => Ok(format!("match {x} with None =>\n  {rest}\n  | Some _ => Panic end")),
+            None => err(mac, "assert_eq! argument"),
+        },
+        _ => err(mac, &format!("unsupported macro {name}!")),
+    }
+}
+
+/// statements of a block -> term of type Res (value * ret_carried)
+fn tr_stmts(stmts: &[Stmt], cx: Cx, ret_carried: &[String]) -> R<String> {
+    let (first, tail) = match stmts.split_first() {
+        Some(x) => x,
+        None => return Ok(ok("tt", ret_carried)),
+    };
+    let last = tail.is_empty();
+    match first {
+        Stmt::Local(l) => {
+            let (name, is_mut) = match &l.pat {
+                Pat::Ident(pi) if pi.subpat.is_none() && pi.by_ref.is_none() => (pi.ident.to_string(), pi.mutability.is_some()),
+                _ => return err(l, "unsupported let pattern"),
+            };
+            let init = match &l.init {
+                Some(i) if i.diverge.is_none() => &i.expr,
+                _ => return err(l, "let without initialiser / let-else"),
+            };
+            let mut cx2 = cx.clone();
+            let mut bound = coq_name(&name);
+            if cx2.carried.contains(&name) {
+                // a new immutable binding hides a carried variable of the same name until the end of
+                // the block: it gets a fresh generated name, the carried variable keeps its own
+                if is_mut {
+                    return err(l, "let mut shadows a mutable variable");
+                }
+                bound = format!("{}{}_", name, cx.tmp.get());
+                cx.tmp.set(cx.tmp.get() + 1);
+                cx2.renames.push((name.clone(), bound.clone()));
+            } else if is_mut {
+                cx2.carried.push(name.clone());
+            } else {
+                cx2.renames.retain(|r| r.0 != name);
+            }
+            if cx.resolved.as_deref() == Some(name.as_str()) {
+                return err(l, "rebinding of the resolved merge function");
+            }
+            let rest = tr_stmts(tail, cx2, ret_carried)?;
+            bind_expr(init, &bound, &cx, rest)
+        }
+        Stmt::Macro(sm) => {
+            let rest = tr_stmts(tail, cx.clone(), ret_carried)?;
+            tr_macro(&sm.mac, &cx, rest)
+        }
+        Stmt::Expr(Expr::Macro(em), _) => {
+            let rest = tr_stmts(tail, cx.clone(), ret_carried)?;
+            tr_macro(&em.mac, &cx, rest)
+        }
+        Stmt::Expr(e, semi) => {
+            if last && semi.is_none() {
+                // the value of the block
+                if let Some(a) = atom(e, &cx)? {
+                    return Ok(ok(&a, ret_carried));
+                }
+                let t = cx.fresh();
+                return bind_expr(e, &t, &cx, ok(&t, ret_carried));
+            }
+            // x |= e
+            if let Expr::Binary(b) = e {
+                if let BinOp::BitOrAssign(_) = b.op {
+                    let v = match cx.carried_var(&b.left) {
+                        Some(v) => coq_name(&v),
+                        _ => return err(e, "|= on something that is not a mutable variable in scope"),
+                    };
+                    let rest = tr_stmts(tail, cx.clone(), ret_carried)?;
+                    return with_atom(&b.right, &cx, |r| Ok(format!("let {v} := orb {v} {r} in\n  {rest}")));
+                }
+            }
+            if let Expr::Assign(a) = e {
+                let rest = tr_stmts(tail, cx.clone(), ret_carried)?;
+                match &*a.left {
+                    Expr::Index(ix) => {
+                        let v = match cx.carried_var(&ix.expr) {
+                            Some(v) => coq_name(&v),
+                            _ => return err(e, "indexed assignment to something that is not a mutable row in scope"),
+                        };
+                        let val = match atom(&a.right, &cx)? {
+                            Some(x) => x,
+                            None => return err(e, "assigned value is not a pure expression"),
+                        };
+                        return with_atom(&ix.index, &cx, |i| Ok(format!("bind (rset {v} {i} {val}) (fun {v} =>\n  {rest})")));
+                    }
+                    l => {
+                        let v = match cx.carried_var(l) {
+                            Some(v) => coq_name(&v),
+                            _ => return err(e, "assignment to something that is not a mutable variable in scope"),
+                        };
+                        return with_atom(&a.right, &cx, |r| Ok(format!("let {v} := {r} in\n  {rest}")));
+                    }
+                }
+            }
+            // if c { return e; }
+            if let Expr::If(i) = e {
+                if i.else_branch.is_none() && i.then_branch.stmts.len() == 1 {
+                    let ret = match &i.then_branch.stmts[0] {
+                        Stmt::Expr(Expr::Return(r), _) => Some(r),
+                        _ => None,
+                    };
+                    if let Some(r) = ret {
+                        let c = match atom(&i.cond, &cx)? {
+                            Some(c) => c,
+                            None => return err(e, "condition"),
+                        };
+                        let v = match &r.expr {
+                            Some(x) => match atom(x, &cx)? {
+                                Some(a) => a,
+                                None => return err(e, "returned value is not a pure expression"),
+                            },
+                            None => "tt".to_string(),
+                        };
+                        // `return` leaves the function: only allowed where the block's carried set is the function's
+                        if cx.carried != ret_carried {
+                            return err(e, "early return inside a nested scope");
+                        }
+                        let rest = tr_stmts(tail, cx.clone(), ret_carried)?;
+                        return Ok(format!("if {c} then {} else\n  {rest}", ok(&v, ret_carried)));
+                    }
+                }
+            }
+            if let Expr::Return(_) = e {
+                return err(e, "unsupported return");
+            }
+            let rest = if last { ok("tt", ret_carried) } else { tr_stmts(tail, cx.clone(), ret_carried)? };
+            bind_expr(e, "_", &cx, rest)
+        }
+        Stmt::Item(_) => err(first, "nested item"),
+    }
+}
+
+// ------------------------------------------------------------------------------------------ items
+
+fn find_method<'a>(file: &'a syn::File, ty: &str, name: &str) -> Option<&'a syn::ImplItemFn> {
+    for it in &file.items {
+        if let SynItem::Impl(im) = it {
+            if im.trait_.is_some() {
+                continue;
+            }
+            let tn = match &*im.self_ty {
+                Type::Path(tp) => path_last(&tp.path),
+                _ => continue,
+            };
+            if tn != ty {
+                continue;
+            }
+            for ii in &im.items {
+                if let ImplItem::Fn(f) = ii {
+                    if f.sig.ident == name {
+                        return Some(f);
+                    }
+                }
+            }
+        }
+    }
+    None
+}
+
+fn base_cx() -> Cx {
+    Cx {
+        carried: vec![],
+        self_ty: "",
+        sm_vars: vec![],
+        resolved: None,
+        state: None,
+        res_methods: Rc::new(HashSet::new()),
+        sm_methods: Rc::new(HashSet::new()),
+        wtr_fields: Rc::new(vec![]),
+        tmp: Rc::new(Cell::new(0)),
+        renames: vec![],
+    }
+}
+
+fn contains_effect(b: &syn::Block) -> bool {
+    struct V(bool);
+    impl<'ast> syn::visit::Visit<'ast> for V {
+        fn visit_macro(&mut self, _m: &'ast syn::Macro) {
+            self.0 = true;
+        }
+        fn visit_expr_index(&mut self, _i: &'ast syn::ExprIndex) {
+            self.0 = true;
+        }
+    }
+    let mut v = V(false);
+    syn::visit::Visit::visit_block(&mut v, b);
+    v.0
+}
+
+struct SmOut {
+    text: String,
+    res_methods: HashSet<String>,
+    sm_methods: HashSet<String>,
+    wtr_fields: Vec<String>,
+}
+
+fn gen_schema_math(file: &syn::File) -> R<SmOut> {
+    // the struct itself: exactly {subsume: bool, func_cols: usize}
+    let st = file
+        .items
+        .iter()
+        .find_map(|it| match it {
+            SynItem::Struct(s) if s.ident == "SchemaMath" => Some(s),
+            _ => None,
+        })
+        .ok_or("struct SchemaMath not found")?;
+    let fields: Vec<(String, String)> = match &st.fields {
+        syn::Fields::Named(n) => n
+            .named
+            .iter()
+            .map(|f| {
+                (
+                    f.ident.as_ref().unwrap().to_string(),
+                    match &f.ty {
+                        Type::Path(tp) => path_last(&tp.path),
+                        _ => "?".into(),
+                    },
+                )
+            })
+            .collect(),
+        _ => return Err("SchemaMath is not a struct with named fields".into()),
+    };
+    if fields != vec![("subsume".to_string(), "bool".to_string()), ("func_cols".to_string(), "usize".to_string())] {
+        return Err(format!("SchemaMath fields changed: {fields:?}"));
+    }
+    let mut text = String::from("(* struct SchemaMath { subsume: bool, func_cols: usize } is the Record of Egg/SchemaPrelude.v *)\n\n");
+    let mut res_methods = HashSet::new();
+    let mut sm_methods = HashSet::new();
+    for name in ["num_keys", "table_columns", "ret_val_col", "ts_col", "subsume_col"] {
+        let f = find_method(file, "SchemaMath", name).ok_or(format!("SchemaMath::{name} not found"))?;
+        if f.sig.inputs.len() != 1 || !matches!(f.sig.inputs[0], FnArg::Receiver(_)) {
+            return Err(format!("SchemaMath::{name}: unexpected signature"));
+        }
+        let is_res = contains_effect(&f.block);
+        let mut cx = base_cx();
+        cx.self_ty = "SchemaMath";
+        cx.res_methods = Rc::new(res_methods.clone());
+        cx.sm_methods = Rc::new(sm_methods.clone());
+        if is_res {
+            let body = tr_stmts(&f.block.stmts, cx, &[]).map_err(|e| format!("SchemaMath::{name}: {e}"))?;
+            text.push_str(&format!("Definition SchemaMath_{name} (self_ : SchemaMath) : Res N :=\n  {body}.\n\n"));
+            res_methods.insert(name.to_string());
+        } else {
+            let body = match &f.block.stmts[..] {
+                [Stmt::Expr(e, None)] => atom(e, &cx).map_err(|e| format!("SchemaMath::{name}: {e}"))?,
+                _ => None,
+            }
+            .ok_or(format!("SchemaMath::{name}: body is not a single pure expression"))?;
+            text.push_str(&format!("Definition SchemaMath_{name} (self_ : SchemaMath) : N :=\n  {body}.\n\n"));
+        }
+        sm_methods.insert(name.to_string());
+    }
+    // write_table_row(&self, row: &mut impl HasResizeWith<T>, RowVals{..}: RowVals<T>)
+    let f = find_method(file, "SchemaMath", "write_table_row").ok_or("SchemaMath::write_table_row not found")?;
+    let ins: Vec<&FnArg> = f.sig.inputs.iter().collect();
+    if ins.len() != 3 || !matches!(ins[0], FnArg::Receiver(_)) {
+        return Err("write_table_row: unexpected signature".into());
+    }
+    let row = match ins[1] {
+        FnArg::Typed(pt) => match (&*pt.pat, &*pt.ty) {
+            (Pat::Ident(pi), Type::Reference(r)) if r.mutability.is_some() => pi.ident.to_string(),
+            _ => return Err("write_table_row: second parameter must be `row: &mut ..`".into()),
+        },
+        _ => return Err("write_table_row: second parameter".into()),
+    };
+    let wtr_fields: Vec<String> = match ins[2] {
+        FnArg::Typed(pt) => match &*pt.pat {
+            Pat::Struct(ps) if path_last(&ps.path) == "RowVals" && ps.rest.is_none() => {
+                let mut v = Vec::new();
+                for fp in &ps.fields {
+                    match (&fp.member, &*fp.pat) {
+                        (syn::Member::Named(m), Pat::Ident(pi)) if *m == pi.ident => v.push(m.to_string()),
+                        _ => return Err("write_table_row: RowVals pattern must use field shorthand".into()),
+                    }
+                }
+                v
+            }
+            _ => return Err("write_table_row: third parameter must be a RowVals pattern".into()),
+        },
+        _ => return Err("write_table_row: third parameter".into()),
+    };
+    // field types of RowVals: T or Option<T>
+    let rv = file
+        .items
+        .iter()
+        .find_map(|it| match it {
+            SynItem::Struct(s) if s.ident == "RowVals" => Some(s),
+            _ => None,
+        })
+        .ok_or("struct RowVals not found")?;
+    let mut params = String::new();
+    for fld in &wtr_fields {
+        let ty = match &rv.fields {
+            syn::Fields::Named(n) => n.named.iter().find(|f| f.ident.as_ref().unwrap() == fld).map(|f| &f.ty),
+            _ => None,
+        }
+        .ok_or(format!("RowVals field {fld} not found"))?;
+        let cty = match ty {
+            Type::Path(tp) if path_last(&tp.path) == "Option" => "option N",
+            Type::Path(tp) if path_last(&tp.path) == "T" => "N",
+            _ => return Err(format!("RowVals field {fld}: unsupported type")),
+        };
+        params.push_str(&format!(" ({} : {cty})", coq_name(fld)));
+    }
+    let mut cx = base_cx();
+    cx.self_ty = "SchemaMath";
+    cx.res_methods = Rc::new(res_methods.clone());
+    cx.sm_methods = Rc::new(sm_methods.clone());
+    cx.carried = vec![row.clone()];
+    let body = tr_stmts(&f.block.stmts, cx, &[row.clone()]).map_err(|e| format!("write_table_row: {e}"))?;
+    text.push_str(&format!(
+        "(* returns the row (a `&mut` parameter) *)\nDefinition SchemaMath_write_table_row (self_ : SchemaMath) ({} : list N){params} : Res (list N) :=\n  bind ({body}) (fun '(_, {}) => Ok {}).\n\n",
+        coq_name(&row),
+        coq_name(&row),
+        coq_name(&row)
+    ));
+    sm_methods.insert("write_table_row".into());
+    Ok(SmOut { text, res_methods, sm_methods, wtr_fields })
+}
+
+fn gen_combine(file: &syn::File) -> R<String> {
+    let mut text = String::new();
+    for cname in ["SUBSUMED", "NOT_SUBSUMED"] {
+        let c = file
+            .items
+            .iter()
+            .find_map(|it| match it {
+                SynItem::Const(c) if c.ident == cname => Some(c),
+                _ => None,
+            })
+            .ok_or(format!("const {cname} not found"))?;
+        let v = atom(&c.expr, &base_cx())?.ok_or(format!("const {cname}: not a pure expression"))?;
+        text.push_str(&format!("Definition {cname} : N := {v}.\n"));
+    }
+    let f = file
+        .items
+        .iter()
+        .find_map(|it| match it {
+            SynItem::Fn(f) if f.sig.ident == "combine_subsumed" => Some(f),
+            _ => None,
+        })
+        .ok_or("fn combine_subsumed not found")?;
+    let mut names = Vec::new();
+    for a in &f.sig.inputs {
+        match a {
+            FnArg::Typed(pt) => match &*pt.pat {
+                Pat::Ident(pi) => names.push(coq_name(&pi.ident.to_string())),
+                _ => return Err("combine_subsumed: parameter pattern".into()),
+            },
+            _ => return Err("combine_subsumed: receiver".into()),
+        }
+    }
+    let body = match &f.block.stmts[..] {
+        [Stmt::Expr(e, None)] => atom(e, &base_cx())?,
+        _ => None,
+    }
+    .ok_or("combine_subsumed: body is not a single pure expression")?;
+    text.push_str(&format!(
+        "Definition combine_subsumedN {} : N :=\n  {body}.\n\n",
+        names.iter().map(|n| format!("({n} : N)")).collect::<Vec<_>>().join(" ")
+    ));
+    Ok(text)
+}
+
+fn gen_callback(file: &syn::File, sm: &SmOut) -> R<String> {
+    let f = find_method(file, "MergeFn", "to_callback").ok_or("MergeFn::to_callback not found")?;
+    // parameters: &self, schema_math: SchemaMath, ..
+    let mut sm_var = None;
+    for a in &f.sig.inputs {
+        if let FnArg::Typed(pt) = a {
+            if let (Pat::Ident(pi), Type::Path(tp)) = (&*pt.pat, &*pt.ty) {
+                if path_last(&tp.path) == "SchemaMath" {
+                    sm_var = Some(pi.ident.to_string());
+                }
+            }
+        }
+    }
+    let sm_var = sm_var.ok_or("to_callback: no SchemaMath parameter")?;
+    // body: let resolved = self.resolve(..); Box::new(move |state, cur, new, out| {..})
+    let (resolved, closure) = match &f.block.stmts[..] {
+        [Stmt::Local(l), Stmt::Expr(Expr::Call(c), None)] => {
+            let name = match &l.pat {
+                Pat::Ident(pi) => pi.ident.to_string(),
+                _ => return err(l, "to_callback: first statement"),
+            };
+            let ok_init = match &l.init {
+                Some(i) => matches!(&*i.expr, Expr::MethodCall(m) if m.method == "resolve" && path_is(&m.receiver, "self")),
+                None => false,
+            };
+            if !ok_init {
+                return err(l, "to_callback: expected `let resolved = self.resolve(..)`");
+            }
+            let is_box = matches!(&*c.func, Expr::Path(p) if p.path.segments.iter().map(|s| s.ident.to_string()).collect::<Vec<_>>() == ["Box", "new"]);
+            match (is_box, c.args.first()) {
+                (true, Some(Expr::Closure(cl))) if c.args.len() == 1 => (name, cl),
+                _ => return err(c, "to_callback: expected Box::new(move |..| {..})"),
+            }
+        }
+        _ => return Err("to_callback: body shape changed".into()),
+    };
+    let mut ps = Vec::new();
+    for p in &closure.inputs {
+        match p {
+            Pat::Ident(pi) => ps.push(pi.ident.to_string()),
+            _ => return err(p, "closure parameter"),
+        }
+    }
+    if ps.len() != 4 {
+        return Err("to_callback: the closure must take (state, cur, new, out)".into());
+    }
+    let mut cx = base_cx();
+    cx.sm_vars = vec![sm_var.clone()];
+    cx.resolved = Some(resolved);
+    cx.state = Some(ps[0].clone());
+    cx.carried = vec![ps[0].clone(), ps[3].clone()];
+    cx.res_methods = Rc::new(sm.res_methods.clone());
+    cx.sm_methods = Rc::new(sm.sm_methods.clone());
+    cx.wtr_fields = Rc::new(sm.wtr_fields.clone());
+    let rc = cx.carried.clone();
+    let body = match &*closure.body {
+        Expr::Block(b) => tr_stmts(&b.block.stmts, cx, &rc)?,
+        _ => return Err("to_callback: closure body is not a block".into()),
+    };
+    Ok(format!(
+        "(* the closure returned by MergeFn::to_callback: core_relations::MergeFn = Fn(state, cur, new, out) -> bool;\n   result: (changed, {st}, {out}) *)\nDefinition MergeFn_to_callback ({smv} : SchemaMath)\n    (resolved_run : list effect -> N -> N -> N -> Res (N * list effect))\n    ({st} : list effect) ({cur} {new} {out} : list N) : Res (bool * list effect * list N) :=\n  {body}.\n\n",
+        smv = coq_name(&sm_var),
+        st = coq_name(&ps[0]),
+        cur = coq_name(&ps[1]),
+        new = coq_name(&ps[2]),
+        out = coq_name(&ps[3]),
+    ))
+}
+
+fn gen_enum(file: &syn::File) -> R<(String, Vec<(String, Vec<String>, bool)>)> {
+    let en = file
+        .items
+        .iter()
+        .find_map(|it| match it {
+            SynItem::Enum(e) if e.ident == "ResolvedMergeFn" => Some(e),
+            _ => None,
+        })
+        .ok_or("enum ResolvedMergeFn not found")?;
+    let cty = |t: &Type| -> R<String> {
+        match t {
+            Type::Path(tp) => {
+                let seg = tp.path.segments.last().unwrap();
+                let n = seg.ident.to_string();
+                match n.as_str() {
+                    "Value" | "ExternalFunctionId" | "TableId" | "TableAction" | "FunctionId" => Ok("N".into()),
+                    "Vec" => {
+                        if let syn::PathArguments::AngleBracketed(ab) = &seg.arguments {
+                            if let Some(syn::GenericArgument::Type(Type::Path(ip))) = ab.args.first() {
+                                if path_last(&ip.path) == "ResolvedMergeFn" {
+                                    return Ok("list ResolvedMergeFn".into());
+                                }
+                            }
+                        }
+                        Err("unsupported Vec field".into())
+                    }
+                    _ => Err(format!("unsupported field type {n}")),
+                }
+            }
+            _ => Err("unsupported field type".into()),
+        }
+    };
+    let mut text = String::from("Inductive ResolvedMergeFn :=\n");
+    let mut variants = Vec::new();
+    for v in &en.variants {
+        let vname = v.ident.to_string();
+        let (fields, named): (Vec<(String, String)>, bool) = match &v.fields {
+            syn::Fields::Unit => (vec![], false),
+            syn::Fields::Unnamed(u) => {
+                let mut fs = Vec::new();
+                for (i, f) in u.unnamed.iter().enumerate() {
+                    fs.push((format!("x{i}"), cty(&f.ty)?));
+                }
+                (fs, false)
+            }
+            syn::Fields::Named(n) => {
+                let mut fs = Vec::new();
+                for f in &n.named {
+                    fs.push((f.ident.as_ref().unwrap().to_string(), cty(&f.ty)?));
+                }
+                (fs, true)
+            }
+        };
+        text.push_str(&format!(
+            "| RMF_{vname}{}\n",
+            fields.iter().map(|(n, t)| format!(" ({} : {t})", coq_name(n))).collect::<String>()
+        ));
+        variants.push((vname, fields.into_iter().map(|(n, _)| n).collect(), named));
+    }
+    text.pop();
+    text.push_str(".\n\n");
+    Ok((text, variants))
+}
+
+fn gen_run(file: &syn::File, variants: &[(String, Vec<String>, bool)]) -> R<String> {
+    let f = find_method(file, "ResolvedMergeFn", "run").ok_or("ResolvedMergeFn::run not found")?;
+    let mut params = Vec::new();
+    for a in f.sig.inputs.iter().skip(1) {
+        match a {
+            FnArg::Typed(pt) => match &*pt.pat {
+                Pat::Ident(pi) => params.push((pi.ident.to_string(), matches!(&*pt.ty, Type::Reference(r) if r.mutability.is_some()))),
+                _ => return err(a, "run: parameter pattern"),
+            },
+            _ => return err(a, "run: parameter"),
+        }
+    }
+    if params.len() != 4 || !params[0].1 || params[1..].iter().any(|p| p.1) {
+        return Err("run: expected (&self, state: &mut ExecutionState, cur, new, ts)".into());
+    }
+    let m = match &f.block.stmts[..] {
+        [Stmt::Expr(Expr::Match(m), None)] if path_is(&m.expr, "self") => m,
+        _ => return Err("run: body is not `match self {..}`".into()),
+    };
+    let mut cx = base_cx();
+    cx.self_ty = "ResolvedMergeFn";
+    cx.state = Some(params[0].0.clone());
+    cx.carried = vec![params[0].0.clone()];
+    let mut arms = String::new();
+    let mut seen = HashSet::new();
+    for arm in &m.arms {
+        if arm.guard.is_some() {
+            return err(arm, "run: match guard");
+        }
+        let (path, binders): (&syn::Path, Vec<(Option<String>, String)>) = match &arm.pat {
+            Pat::Path(p) => (&p.path, vec![]),
+            Pat::Ident(pi) => return err(pi, "run: catch-all arm"),
+            Pat::TupleStruct(ts) => {
+                let mut b = Vec::new();
+                for e in &ts.elems {
+                    match e {
+                        Pat::Ident(pi) => b.push((None, pi.ident.to_string())),
+                        _ => return err(e, "run: arm pattern"),
+                    }
+                }
+                (&ts.path, b)
+            }
+            Pat::Struct(ps) => {
+                if ps.rest.is_some() {
+                    return err(ps, "run: `..` in an arm pattern");
+                }
+                let mut b = Vec::new();
+                for fp in &ps.fields {
+                    match (&fp.member, &*fp.pat) {
+                        (syn::Member::Named(m), Pat::Ident(pi)) => b.push((Some(m.to_string()), pi.ident.to_string())),
+                        _ => return err(fp, "run: arm pattern"),
+                    }
+                }
+                (&ps.path, b)
+            }
+            p => return err(p, "run: arm pattern"),
+        };
+        let vname = path_last(path);
+        let (_, vfields, named) = variants.iter().find(|v| v.0 == vname).ok_or(format!("run: unknown variant {vname}"))?;
+        if binders.len() != vfields.len() {
+            return err(arm, "run: arm does not bind every field");
+        }
+        let mut names = Vec::new();
+        if *named {
+            for vf in vfields {
+                let b = binders.iter().find(|b| b.0.as_deref() == Some(vf.as_str())).ok_or(format!("run: field {vf} not bound"))?;
+                names.push(coq_name(&b.1));
+            }
+        } else {
+            names = binders.iter().map(|b| coq_name(&b.1)).collect();
+        }
+        seen.insert(vname.clone());
+        let body = value_block(&arm.body, &cx).map_err(|e| format!("run, arm {vname}: {e}"))?;
+        arms.push_str(&format!("  | RMF_{vname}{} =>\n  {body}\n", names.iter().map(|n| format!(" {n}")).collect::<String>()));
+    }
+    if seen.len() != variants.len() {
+        return Err("run: not every variant has an arm".into());
+    }
+    let p = |i: usize| coq_name(&params[i].0);
+    Ok(format!(
+        "Fixpoint ResolvedMergeFn_run (env : menv) (self_ : ResolvedMergeFn) ({} : list effect) ({} {} {} : N) {{struct self_}}\n  : Res (N * list effect) :=\n  match self_ with\n{arms}  end.\n\n",
+        p(0),
+        p(1),
+        p(2),
+        p(3)
+    ))
+}
+
+pub fn generate(repo: &std::path::Path) -> (String, Vec<String>) {
+    let mut rep = Vec::new();
+    let mut out = String::from(
+        "(* GENERATED by /verif/translator (x_schema.rs) from egglog-bridge/src/lib.rs; do not edit *)\nFrom Coq Require Import List NArith Bool.\nImport ListNotations.\nRequire Import Verif.Base.Res Verif.Egg.SchemaPrelude.\nLocal Open Scope N_scope.\n\n",
+    );
+    let report = |rep: &mut Vec<String>, item: &str, r: &Result<(), String>| match r {
+        Ok(()) => rep.push(format!("{{\"item\":\"SchemaFns.{item}\",\"file\":\"{FILE}\",\"ok\":true}}")),
+        Err(e) => rep.push(format!("{{\"item\":\"SchemaFns.{item}\",\"file\":\"{FILE}\",\"ok\":false,\"error\":{:?}}}", e)),
+    };
+    let items = ["SchemaMath", "combine_subsumed", "to_callback", "ResolvedMergeFn", "run"];
+    let file = match std::fs::read_to_string(repo.join(FILE)).map_err(|e| e.to_string()).and_then(|s| syn::parse_file(&s).map_err(|e| e.to_string())) {
+        Ok(f) => f,
+        Err(e) => {
+            for it in items {
+                report(&mut rep, it, &Err(e.clone()));
+            }
+            return ("(* GENERATED: cannot read / parse egglog-bridge/src/lib.rs *)\n".into(), rep);
+        }
+    };
+    let fail = |out: &mut String, what: &str, e: &str| {
+        out.push_str(&format!("(* {what}: translation FAILED: {} *)\n\n", e.replace("*)", "* )")));
+    };
+    let sm = gen_schema_math(&file);
+    match &sm {
+        Ok(s) => {
+            out.push_str(&s.text);
+            report(&mut rep, "SchemaMath", &Ok(()));
+        }
+        Err(e) => {
+            fail(&mut out, "SchemaMath", e);
+            report(&mut rep, "SchemaMath", &Err(e.clone()));
+        }
+    }
+    let comb = gen_combine(&file);
+    match &comb {
+        Ok(t) => {
+            out.push_str(t);
+            report(&mut rep, "combine_subsumed", &Ok(()));
+        }
+        Err(e) => {
+            fail(&mut out, "combine_subsumed", e);
+            report(&mut rep, "combine_subsumed", &Err(e.clone()));
+        }
+    }
+    let cb = match (&sm, &comb) {
+        (Ok(s), Ok(_)) => gen_callback(&file, s),
+        _ => Err("depends on SchemaMath / combine_subsumed".to_string()),
+    };
+    match &cb {
+        Ok(t) => {
+            out.push_str(t);
+            report(&mut rep, "to_callback", &Ok(()));
+        }
+        Err(e) => {
+            fail(&mut out, "MergeFn::to_callback", e);
+            report(&mut rep, "to_callback", &Err(e.clone()));
+        }
+    }
+    let en = gen_enum(&file);
+    match &en {
+        Ok((t, _)) => {
+            out.push_str(t);
+            report(&mut rep, "ResolvedMergeFn", &Ok(()));
+        }
+        Err(e) => {
+            fail(&mut out, "enum ResolvedMergeFn", e);
+            report(&mut rep, "ResolvedMergeFn", &Err(e.clone()));
+        }
+    }
+    let run = match &en {
+        Ok((_, vs)) => gen_run(&file, vs),
+        Err(_) => Err("depends on enum ResolvedMergeFn".to_string()),
+    };
+    match &run {
+        Ok(t) => {
+            out.push_str(t);
+            report(&mut rep, "run", &Ok(()));
+        }
+        Err(e) => {
+            fail(&mut out, "ResolvedMergeFn::run", e);
+            report(&mut rep, "run", &Err(e.clone()));
+        }
+    }
+    (out, rep)
 }
